@@ -4,7 +4,7 @@ import glob
 import os
 import re
 
-REPO = '/repo'
+REPO = os.environ.get('VERIF_REPO', '/repo')   # override: development against a snapshot only
 
 
 class Layout:
